@@ -66,3 +66,11 @@ Definition run_size (arg : V) : V :=
 (* frames -> segment table [[start; count]; ...] *)
 Definition run_chunks (arg : V) : V :=
   ok (VL (map seg_entry (chunks (vlist arg) 0))).
+
+(* the code's own nBytes arithmetic for run-length coded tracks (Proofs/SizeFacts.v proves it equal to [size]):
+   [labelled (1) / unlabelled (0); item size; frames] *)
+Fixpoint seg_sum_m (w : Z) (cs : list (Z * list V)) : Z :=
+  match cs with [] => 0 | sc :: r => 4 + 4 + zlength (snd sc) * w + seg_sum_m w r end.
+Definition run_nbytes_track (arg : V) : V :=
+  let cs := chunks (vlist (vnth 2 arg)) 0 in
+  ok (VI ((if vint (vnth 0 arg) =? 1 then 256 else 0) + 4 + 4 + seg_sum_m (vint (vnth 1 arg)) cs)).
